@@ -6,5 +6,6 @@ CONSTANTS
   MaxSlots = 2
   MaxParked = 2
 INVARIANTS MintOnlyOnCreate DeadStaysDead UserBound NoTimeoutDuringPost StatelessNoIds ClosedAndForgotten TimerDiscipline
-PROPERTIES MintStep AtMostOneSession DeadForever
+PROPERTIES MintStep AtMostOneSession DeadForever ResAlways
+VIEW MCView
 CHECK_DEADLOCK FALSE
